@@ -107,6 +107,25 @@ func init() {
 				}
 			}
 		}
+		// data whose value is nil binds the name too: it hides an outer variable of that name, exactly
+		// as a let would in the inline form
+		{
+			const IFW = "[<%= if (who) { %>W<% } else { %>-<% } %><%= who == nil %>]"
+			for _, t := range [][2]string{
+				{`<% let who = "outer" %><%= partial("tw", {who: nil}) %>|<%= partial("tw") %>`, "[-true]|[Wfalse]"}, {`<% let who = "outer" %><%= partial("tw", {who: nil, layout: "lay"}) %>`, "<L>[-true]</L>"},
+				{`<% let who = "outer" %><% contentFor("nb") { %>` + IFW + `<% } %><%= contentOf("nb", {who: nil}) %>|<%= contentOf("nb") %>|<%= contentOf("nb", {who: "d"}) %>`, "[-true]|[Wfalse]|[Wfalse]"},
+				{`<% let who = "outer" %><%= contentOf("nodef", {who: nil}) { %>` + IFW + `<% } %>`, "[-true]"}, {`<% let who = "outer" %><%= blkctx({who: nil}) { %>` + IFW + `<% } %>`, "[-true]"},
+				{`<%= for (who) in ["a"] { %><%= partial("tw", {who: nil}) %><%= partial("tw", {other: nil}) %><% } %>`, "[-true][Wfalse]"},
+				{`<% let f = fn(who) { return partial("tw", {who: nil}) } %><%= f("arg") %>`, "[-true]"},
+			} {
+				c := RCase{Tmpl: t[0], Binds: c17binds(), Parts: map[string]string{"tw": IFW, "lay": "<L><%= yield %></L>"}}
+				o := e.addRenderCase("nil-data", c)
+				e.Distinct(t[0])
+				if o.Class != "OK" || o.Out != t[1] {
+					e.Violate("c17-partial", fmt.Sprintf("%s rendered %q (%s %s), inline rendering (a let of the same names) gives %q", t[0], o.Out, o.Class, firstLine(o.Msg), t[1]), map[string]interface{}{"case": c, "observed": o})
+				}
+			}
+		}
 		// contentFor / contentOf
 		cbodies := []string{"<b><%= s %></b>", "[<%= who %>]", "<%= for (x) in xs { %><%= x %>,<% } %>", "<%= if (who) { %>W<% } else { %>-<% } %>", "text only"}
 		for ci, cb := range cbodies {
